@@ -197,11 +197,27 @@ def run_history(spec, ops):
                 del lst[:]
                 if spec["walker"] == "plain":
                     walker._modified()
+            elif op[0] == "iadd":       # refill / extend the walker's list in place: lst += [...]
+                lst += [mk(*t) for t in op[1]]
+                if spec["walker"] == "plain":
+                    walker._modified()
+            elif op[0] == "setall":     # lst[:] = [...]
+                lst[:] = [mk(*t) for t in op[1]]
+                if spec["walker"] == "plain":
+                    walker.focus = 0
+                    walker._modified()
+            elif op[0] == "shift":      # the documented ListBox.shift_focus(size, offset_inset)
+                if len(lst):
+                    lb.shift_focus(size, op[1])
         except Exception as ex:  # noqa: BLE001
             # the property speaks of rendering: an exception out of keypress / mouse_event / set_focus is recorded and
             # reported as DIVERGENCE; the view rendered afterwards is still judged
             opexc.append({"op": list(op), "exc": type(ex).__name__, "msg": str(ex)[:80]})
             click = None
+            if type(ex).__name__ == "ListBoxError" and op[0] in ("key", "press", "wheel"):
+                # the list box's own view calculation (the one render() uses) gave up while handling input: judged like a
+                # rendering failure; exceptions of other kinds / from other calls stay DIVERGENCE
+                exc = "ListBoxError"
         last = observe(op, exc, click)
         if last["exc"]:
             break
@@ -244,8 +260,16 @@ def random_ops(rng, n):
         elif r < 0.98:
             h = rng.choice(HEIGHTS)
             ops.append(("replace", rng.randint(0, 6), h, 1, -1))
-        else:
+        elif r < 0.985:
             ops.append(("clear",))
+        else:
+            def few():
+                out = []
+                for _ in range(rng.randint(1, 3)):
+                    h = rng.choice(HEIGHTS)
+                    out.append([h, 1 if rng.random() < 0.6 else 0, -1])
+                return out
+            ops.append((rng.choice(["iadd", "iadd", "setall"]), few()))
     return ops
 
 
@@ -290,6 +314,23 @@ def run(chk):
                     for first in ([], [("key", "end")], [("key", "page down")]):
                         for k in KEYS[:6]:
                             traces.append(run_history(spec, [*first, ("key", k), ("press", 0, 0), ("press", 0, h - 1)]))
+    # ---- directed: the list emptied in one go and refilled in place, from every focus position ----
+    for walker in ("focus", "simple", "plain"):
+        for n0 in (2, 3, 4):
+            for f in range(n0):
+                for k in (1, 2, 3):
+                    for how in ("clear", "setall"):
+                        base = {"items": [[1, 1, -1]] * n0, "w": 3, "h": 3, "walker": walker}
+                        empty = ("clear",) if how == "clear" else ("setall", [])
+                        traces.append(run_history(base, [("set_focus", f, None), empty, ("iadd", [[1, 1, -1]] * k), ("key", "down"), ("press", 0, 0)]))
+    # ---- directed: a selectable item with a cursor that is taller than the box, every inset, every cursor row, then every key / wheel ----
+    for H in (2, 3, 5, 7):
+        for crow in sorted({0, H // 2, H - 1}):
+            for h in (1, 2, 3, 4):
+                for off in range(-(H - 1), h):
+                    for act in [("key", k) for k in ("up", "down", "page up", "page down")] + [("wheel", 4), ("wheel", 5)]:
+                        spec = {"items": [[1, 1, -1], [H, 1, crow], [1, 0, -1], [2, 1, 0]], "w": 3, "h": h, "walker": "focus"}
+                        traces.append(run_history(spec, [("set_focus", 1, None), ("shift", off), act, act]))
     n_rand = 2500 if quick else 120000
     for _ in range(n_rand):
         traces.append(run_history(random_spec(rng), random_ops(rng, rng.randint(3, 14))))
